@@ -152,7 +152,16 @@ def draw_commute(data, tier):
                 P.draw_apply(state, {'op': 'transpose', 'x': x, 'axes': pa})
                 P.draw_apply(state, {'op': 'transpose', 'x': y, 'axes': pa})
                 x, y = len(state.pool) - 2, len(state.pool) - 1
-            P.draw_apply(state, {'op': 'add', 'x': x, 'y': y, 'f': data.draw(st.sampled_from(['add', 'sub'])), 'klass': klass})
+            f = data.draw(st.sampled_from(['add', 'sub', 'addn', 'addn']))
+            step = {'op': 'add', 'x': x, 'y': y, 'f': f, 'klass': klass}
+            if f == 'addn':
+                # sums of 3-4 operands in which the differently structured operand takes any position (x + y + x, y + x + x + y, ...)
+                step['ys'] = list(data.draw(st.permutations([y] + data.draw(st.lists(st.sampled_from([x, y]), min_size=1, max_size=2)))))
+                step['amps'] = None
+                if data.draw(st.booleans()):
+                    step['x'], step['y'] = y, x
+                    step['ys'] = [x if j == y else y for j in step['ys']]
+            P.draw_apply(state, step)
         elif opn == 'vdot':
             A = a.conj()
             legs = [ELeg(-l.s, P.perturb_table(data, state.sym, tier, l.tD, klass)) for l in A.legs]
